@@ -68,3 +68,37 @@ Proof.
         -- destruct (kind =? 4); [|discriminate].
            inversion H; subst conv. apply (run_kernel_refines_fn _ (fun v => Some v)); [reflexivity|]. reflexivity.
 Qed.
+
+(* ---- text form: the hours / mins / secs / sub-second fields printed for the time part of an interval are
+   the canonical decomposition of the count (every lower field stays below its carry bound) *)
+Theorem hms_decomposition : forall U v, 0 < U ->
+  v = ((hms_hours U v * 60 + hms_mins U v) * 60 + hms_secs U v) * U + hms_sub U v
+  /\ Z.abs (hms_mins U v) < 60 /\ Z.abs (hms_secs U v) < 60 /\ Z.abs (hms_sub U v) < U.
+Proof.
+  intros U v HU. unfold hms_mins, hms_secs, hms_sub, hms_hours.
+  set (s0 := Z.quot v U). set (m0 := Z.quot s0 60). set (h := Z.quot m0 60).
+  pose proof (Z.quot_rem' v U) as E1. fold s0 in E1.
+  pose proof (Z.quot_rem' s0 60) as E2. fold m0 in E2.
+  pose proof (Z.quot_rem' m0 60) as E3. fold h in E3.
+  pose proof (Z.rem_bound_abs v U ltac:(lia)) as B1.
+  pose proof (Z.rem_bound_abs s0 60 ltac:(lia)) as B2.
+  pose proof (Z.rem_bound_abs m0 60 ltac:(lia)) as B3.
+  clearbody s0 m0 h.
+  split; [transitivity (U * s0 + Z.rem v U); [exact E1|ring]|].
+  repeat split; lia.
+Qed.
+
+Theorem hms_nonneg : forall U v, 0 < U -> 0 <= v ->
+  0 <= hms_hours U v /\ 0 <= hms_mins U v /\ 0 <= hms_secs U v /\ 0 <= hms_sub U v.
+Proof.
+  intros U v HU Hv. unfold hms_mins, hms_secs, hms_sub, hms_hours.
+  set (s0 := Z.quot v U). set (m0 := Z.quot s0 60). set (h := Z.quot m0 60).
+  assert (S0 : 0 <= s0) by (apply Z.quot_pos; lia).
+  assert (M0 : 0 <= m0) by (apply Z.quot_pos; lia).
+  assert (H0 : 0 <= h) by (apply Z.quot_pos; lia).
+  pose proof (Z.quot_rem' s0 60) as E2. fold m0 in E2.
+  pose proof (Z.quot_rem' m0 60) as E3. fold h in E3.
+  pose proof (Z.rem_nonneg s0 60 ltac:(lia) S0). pose proof (Z.rem_nonneg m0 60 ltac:(lia) M0).
+  pose proof (Z.rem_nonneg v U ltac:(lia) Hv).
+  repeat split; lia.
+Qed.
